@@ -110,7 +110,7 @@ pub fn c15_in_conventions() {
     std::mem::forget(hs);
 }
 
-//@ harness: c15_in_substring tier=thorough timeout=2400 kind=main mem=28 optional=1
+//@ harness: c15_in_substring tier=thorough timeout=900 kind=main mem=28 optional=1
 //@ encodes: op::array::in_ (string haystack), str::contains
 //@ bound: needle of 1 symbolic character, haystack of 2 symbolic characters: true iff the needle equals one of them; empty needle => true
 #[cfg_attr(kani, kani::proof)]
@@ -201,7 +201,7 @@ pub fn c15_merge_scalars() {
     std::mem::forget((r, r1));
 }
 
-//@ harness: c15_merge_nested tier=thorough timeout=2400 kind=main mem=24 optional=1
+//@ harness: c15_merge_nested tier=thorough timeout=900 kind=main mem=24 optional=1
 //@ encodes: op::array::merge
 //@ bound: merge([[x]], y): exactly one level is flattened - the inner array [x] stays one element
 #[cfg_attr(kani, kani::proof)]
